@@ -1408,10 +1408,15 @@ func exchangeServiceInfoRound(ctx context.Context, transport Transport, mtu uint
 			break
 		}
 		if errors.Is(err, serviceinfo.ErrSizeTooSmall) {
-			msg.IsMoreServiceInfo = true
 			if maxRead == mtu {
-				msg.IsMoreServiceInfo = false // likely due to a yield... but also could be a malicious large key?
+				// A forced break at the very start of a message has nothing to
+				// separate (it follows a value that exactly filled the previous
+				// message); ending the round here would drop everything that is
+				// still queued. A key too large for an empty message is reported
+				// by ReadChunk as a hard error, not as ErrSizeTooSmall.
+				continue
 			}
+			msg.IsMoreServiceInfo = true
 			break
 		}
 		if err != nil {
